@@ -243,7 +243,11 @@ def o6_methods(steps, cfg, history):
                 pass
         if c['op'] == 'recheck' and c.get('method'):
             for t in c['targets']:
-                if t in pre.recs and unmodified(pre, t) and (pre.ws.get(t) is None or read_through(pre, t) is not None):
+                # an unmodified (or absent) entry - or, with --force, also a locally modified one whose committed version is
+                # in the cache - is replaced by an entry of the requested kind
+                forced_mod = bool(c.get('force')) and t in pre.recs and not unmodified(pre, t) and pre.recs[t]['cur'] and \
+                    pre.cache.get(rec_addr(pre.recs[t], t), {}).get('bytes') is not None
+                if t in pre.recs and (unmodified(pre, t) or forced_mod) and (pre.ws.get(t) is None or read_through(pre, t) is not None):
                     r = post.recs.get(t)
                     want = KIND_OF[c['method']]
                     kind, addr = entry_kind(post, t)
@@ -292,6 +296,12 @@ def o7_copy_move(steps, cfg, history):
         if modified or (dst in pre.recs and not (c['op'] == 'copy' and c.get('force'))):
             if not same() or {p: read_through(pre, p) for p in pre.ws} != {p: read_through(post, p) for p in post.ws}:
                 out.append((f"step {st['i']} {show_cmd(c)}: must refuse ({'source modified' if modified else 'destination tracked'}) but changed records or workspace", {'kind': 'copy-move-not-refused'}))
+            continue
+        if st['rc'] == 1 and dst not in pre.recs and dst not in pre.ws and ext_of(src) == ext_of(dst) and o is not None and o['bytes'] is not None and \
+                (src_b == o['bytes'] or (src_b is None and src not in pre.ws and c['op'] == 'copy')):
+            # nothing to object to: the source is exactly its committed version (or absent, for copy), the destination is free
+            out.append((f"step {st['i']} {show_cmd(c)}: refused ({st['err'][-160:].strip()}) although the source has no uncommitted changes and the destination is neither tracked nor present",
+                        {'kind': 'copy-move-wrongly-refused', 'op': c['op']}))
             continue
         if st['rc'] != 0 or dst in pre.recs or dst in pre.ws: continue
         rd = post.recs.get(dst)
